@@ -11,6 +11,9 @@ use vstd::std_specs::cmp::{PartialEqSpec, PartialEqSpecImpl, PartialOrdSpec, Par
 use vstd::std_specs::ops::*;
 verus! {
 
+pub assume_specification<'a>[<String as core::convert::From<&'a str>>::from](s: &str) -> (r: String)
+    ensures r@ == s@;
+
 // ---- assumed specifications of std items that vstd does not cover (listed in evidence) ----
 pub assume_specification<T: std::cmp::Ord>[std::cmp::max](a: T, b: T) -> (r: T)
     ensures T::obeys_cmp_spec() ==> r == (if a.cmp_spec(&b) == Ordering::Greater { a } else { b });
